@@ -54,7 +54,7 @@ for i in ids:
     print(i, verdict, sigs[:1], flush=True)
 # RESULTS.md is always rebuilt from every meta.json present
 with open(f'{V}/seeded/RESULTS.md', 'w') as f:
-    f.write('# Seeded changes and which check catches them\n\nRounds: `-m1/-m2` round 1, `-r2` round 2 (agents were told the checker\'s workload), `-m3/-m4` round 3, `-r4` round 4 (adversarial, like round 2). See DESIGN.md 10.5.\n\n| id | property | quick check verdict | first signature | change |\n|---|---|---|---|---|\n')
+    f.write('# Seeded changes and which check catches them\n\nRounds: `-m1/-m2` round 1, `-r2` round 2 (agents were told the checker\'s workload), `-m3/-m4` round 3, `-r4` round 4 (adversarial, like round 2), `-m5/-m6` round 6 (plain protocol). See DESIGN.md 10.5.\n\n| id | property | quick check verdict | first signature | change |\n|---|---|---|---|---|\n')
     for i in ids:
         try:
             m = json.load(open(f'{V}/seeded/{i}/meta.json'))
